@@ -77,7 +77,6 @@ func (h264dp *h264Depacketizer) Depacketize(packet *Packet) (err error) {
 
 func (h264dp *h264Depacketizer) depacketizeStapa(packet *Packet) (err error) {
 	payload := packet.Payload()
-	header := payload[0]
 
 	// 	0                   1                   2                   3
 	// 	0 1 2 3 4 5 6 7 8 9 0 1 2 3 4 5 6 7 8 9 0 1 2 3 4 5 6 7 8 9 0 1
@@ -108,8 +107,7 @@ func (h264dp *h264Depacketizer) depacketizeStapa(packet *Packet) (err error) {
 			MediaType: codec.MediaTypeVideo,
 			Payload:   make([]byte, nalSize),
 		}
-		copy(frame.Payload, payload[off:])
-		frame.Payload[0] = 0 | (header & 0x60) | (frame.Payload[0] & 0x1F)
+		copy(frame.Payload, payload[off:]) // 聚合包内的 NAL 原样输出（保留其自身的 NRI）
 		if err = h264dp.writeFrame(packet.Timestamp, frame); err != nil {
 			return
 		}
@@ -146,6 +144,9 @@ func (h264dp *h264Depacketizer) depacketizeFuA(packet *Packet) (err error) {
 
 	if (fuHeader>>7)&1 == 1 { // 第一个分片包
 		h264dp.fragments = h264dp.fragments[:0]
+	} else if len(h264dp.fragments) == 0 {
+		// 起始分片丢失，后续分片不能单独组成 NAL，丢弃
+		return
 	}
 	if len(h264dp.fragments) != 0 &&
 		h264dp.fragments[len(h264dp.fragments)-1].SequenceNumber != packet.SequenceNumber-1 {
